@@ -70,6 +70,9 @@ def _judge_dist(c, drv, got):
             out.append(dict(kind='model', key=f'distance-model:{nd}', detail=dict(got=g.tolist()[:40], model=model[:40])))
     if spec and spec[0] >= 0 and spec != model:
         out.append(dict(kind='model', key='model-vs-spec', detail=dict(spec=spec[:40], model=model[:40])))
+    if drv['flat'] != drv['model']:
+        # the coordinate-level passes (about which the theorems speak) and the flat/stride passes must agree
+        out.append(dict(kind='model', key='model-coord-vs-flat', detail=dict(flat=drv['flat'][:200], model=drv['model'][:200])))
     return out
 
 
@@ -140,6 +143,8 @@ def _eval_single(cases):
                     nontriv = any(v == 0 for v in c['data'])
                 if not f and g != core.ints(drv['model']):
                     f.append(dict(kind='model', key='gvoronoi-model', detail=dict(got=g, model=core.ints(drv['model']))))
+                if drv['flat'] != drv['model']:
+                    f.append(dict(kind='model', key='gvoronoi-model-coord-vs-flat', detail=dict(flat=drv['flat'], model=drv['model'])))
             if not np.array_equal(before, A):
                 f.append(dict(kind='property', key='input-modified', detail={}))
         elif k == 'dt1d':
